@@ -305,20 +305,87 @@ func oracleC06(input string) string {
 	return ""
 }
 
+// expectedComments: what the comment/docstring structure of a line sequence is, read off the source
+// lines themselves (independent of the lexer): a '#' line is a comment with the text after the '#';
+// a non-empty comment directly above a task line (blank lines between do not count) is its docstring.
+func expectedComments(lines []string) []string {
+	var out []string
+	pending := "" // a comment that may turn out to be a docstring
+	havePending := false
+	flush := func() {
+		if havePending && strings.TrimSpace(pending) != "" {
+			out = append(out, "comment "+strings.TrimSpace(pending))
+		}
+		havePending = false
+	}
+	for _, l := range lines {
+		switch {
+		case strings.HasPrefix(l, "#"):
+			flush()
+			pending, havePending = l[1:], true
+		case strings.HasPrefix(l, "task "):
+			name := l[len("task "):strings.Index(l, "(")]
+			doc := ""
+			if havePending && pending != "" {
+				doc = strings.TrimSpace(pending)
+				havePending = false
+			}
+			flush()
+			out = append(out, "task "+name+" doc="+strconv.Quote(doc))
+		case l == "":
+			// blank lines separate nothing
+		default:
+			flush()
+			out = append(out, "stmt")
+		}
+	}
+	flush()
+	return out
+}
+
+// oracleC15Lines: the comments and docstrings read off the source lines survive parsing and a
+// format / parse round trip.
+func oracleC15Lines(lines []string, final string) string {
+	src := strings.Join(lines, "\n") + final
+	r := parseWith(src, 2e9)
+	if r.timedOut || r.panicked != nil || r.err != nil {
+		return ""
+	}
+	want := expectedComments(lines)
+	if got := comments(r.tree); strings.Join(got, "|") != strings.Join(want, "|") {
+		return fmt.Sprintf("comments/docstrings parsed differ from the source lines: source %q parsed %q", want, got)
+	}
+	r2 := parseWith(r.tree.String(), 2e9)
+	if r2.timedOut || r2.panicked != nil || r2.err != nil {
+		return ""
+	}
+	if got := comments(r2.tree); strings.Join(got, "|") != strings.Join(want, "|") {
+		return fmt.Sprintf("comments/docstrings after formatting differ from the source lines: source %q after formatting %q", want, got)
+	}
+	return ""
+}
+
+var linePool = []string{"# c", "#", "#  ", "## d #", "A := \"x\\y\"", "B := A", "task a() {\n    b\n}", "task c() { d }", "", "task e(a) -> \"o\" {\n}"}
+
 // lineSequences: comments in every position.
 func lineSequences(maxLines int, f func(string)) {
-	pool := []string{"# c", "#", "#  ", "## d #", "A := \"x\\y\"", "B := A", "task a() {\n    b\n}", "task c() { d }", "", "task e(a) -> \"o\" {\n}"}
+	lineSequencesLines(maxLines, func(cur []string) {
+		f(strings.Join(cur, "\n"))
+		f(strings.Join(cur, "\n") + "\n")
+	})
+}
+
+func lineSequencesLines(maxLines int, f func([]string)) {
 	var rec func(cur []string, n int)
 	rec = func(cur []string, n int) {
 		if len(cur) > 0 {
-			f(strings.Join(cur, "\n"))
-			f(strings.Join(cur, "\n") + "\n")
+			f(cur)
 		}
 		if n == maxLines {
 			return
 		}
-		for _, p := range pool {
-			rec(append(cur, p), n+1)
+		for _, p := range linePool {
+			rec(append(append([]string{}, cur...), p), n+1)
 		}
 	}
 	rec(nil, 0)
